@@ -1364,17 +1364,14 @@ fn main() {
     }
     if a.get(2).map(String::as_str) == Some("pin") {
         // `h-c18 c18 pin > corpus/C18/schema-pinned.req`: the facts of today's code, frozen in request
-        // lines (minimal and maximal spec-shaped content of every modelled type). A later change of a
+        // lines (minimal and maximal spec-shaped content of every modelled type; every field at every depth
+        // present / left out in otherwise minimal content). A later change of a
         // fact (a dropped `skip_serializing_if`, another default, …) makes the model under the frozen
         // facts disagree with the implementation on these lines.
         println!("# regenerate with: harness/target/release/h-c18 c18 pin > corpus/C18/schema-pinned.req  (after a deliberate change of schema.rs / the token format)");
         let ex = model::extract_all(&all_schemas());
-        for t in &ex.modelled {
-            for (n, mode) in [Mode::Min, Mode::Max, Mode::Max].iter().enumerate() {
-                let mut rng = Rng::new(1800 + n as u64);
-                let j = schema::gen(&mut rng, &t.spec, *mode);
-                println!("c18.schema {} {} {} {}", t.kind, stok(&t.ty), jt::toks(&j), t.toks);
-            }
+        for l in model::pin_lines(&ex) {
+            println!("{l}");
         }
         return;
     }
